@@ -282,8 +282,11 @@ Fixpoint update_row (id : Z) (f : row -> option row) (rows : list row) : option 
 Definition step_name : bytes := fd_name (hd (mkfdef [] FInt 0 false []) fields).
 
 (* what the file system does with the final write: [flush_fails] = the
-   buffered data could not be written (the file was already truncated) *)
-Definition write_cmd (flush_fails : bool) (file : option bytes) (idarg : bytes) (kvs : list bytes)
+   buffered data could not be written (the file was already truncated).
+   [key_checked]: action_write compares the id column of the row with the -i id once every
+   key=value is applied and fails when a step=... argument changed it (robsd-step.c since 17c91c8;
+   the source as it is decides through Gen_Step.step_key_checked, see [write_cmd]) *)
+Definition write_cmd_with (key_checked : bool) (flush_fails : bool) (file : option bytes) (idarg : bytes) (kvs : list bytes)
   : N * option bytes :=
   match file with
   | None => (1, file)                                    (* open fails *)
@@ -297,7 +300,11 @@ Definition write_cmd (flush_fails : bool) (file : option bytes) (idarg : bytes) 
               match kvs with
               | [] => (1, file)                           (* usage *)
               | _ =>
-                  let upd := fun r => set_keyvals r (map cstr kvs) in
+                  let upd := fun r =>
+                    match set_keyvals r (map cstr kvs) with
+                    | Some r' => if key_checked && negb (row_id r' =? id)%Z then None else Some r'
+                    | None => None
+                    end in
                   let rows' :=
                     match update_row id upd rows with
                     | Some r => r
@@ -326,6 +333,9 @@ Definition write_cmd (flush_fails : bool) (file : option bytes) (idarg : bytes) 
           end
       end
   end.
+
+Definition write_cmd : bool -> option bytes -> bytes -> list bytes -> N * option bytes :=
+  write_cmd_with step_key_checked.
 
 (* ---- robsd-step -R --------------------------------------------------------------------- *)
 
